@@ -15,7 +15,6 @@
 
 """Functions for manipulating the comment headers of files."""
 
-import itertools
 import logging
 import re
 from typing import NamedTuple, Optional, Sequence, Type, cast
@@ -199,6 +198,21 @@ def _indices_of_newlines(text: str) -> Sequence[int]:
     return indices
 
 
+def _line_of_unclosed_ignore_block(comment: str) -> Optional[int]:
+    """The index of the line of *comment* that opens an ignore block which is
+    not closed inside of *comment*, or None.
+    """
+    unclosed = None
+    for number, line in enumerate(comment.split("\n")):
+        start = line.rfind("REUSE-IgnoreStart")
+        if start > line.rfind("REUSE-IgnoreEnd"):
+            if unclosed is None:
+                unclosed = number
+        elif "REUSE-IgnoreEnd" in line:
+            unclosed = None
+    return unclosed
+
+
 def _find_first_spdx_comment(
     text: str, style: Optional[Type[CommentStyle]] = None
 ) -> _TextSections:
@@ -232,19 +246,18 @@ def _find_first_spdx_comment(
             continue
         if "SPDX-SnippetBegin" in comment:
             continue
-        if "REUSE-IgnoreStart" in comment:
-            # The header ends where an ignore block begins: the marker must
-            # stay where it is. A multi-line comment cannot be cut in two.
+        unclosed = _line_of_unclosed_ignore_block(comment)
+        if unclosed is not None:
+            # The header ends where an ignore block begins that goes on below
+            # the comment: the marker must stay where it is. (A block that is
+            # closed inside of the comment is a part of the header, a custom
+            # template may contain one.) A multi-line comment cannot be cut
+            # in two.
             if style.can_handle_multi() and comment.startswith(
                 style.MULTI_LINE.start
             ):
                 continue
-            comment = "\n".join(
-                itertools.takewhile(
-                    lambda line: "REUSE-IgnoreStart" not in line,
-                    comment.split("\n"),
-                )
-            )
+            comment = "\n".join(comment.split("\n")[:unclosed])
             if not comment:
                 continue
         if contains_reuse_info(comment):
